@@ -125,6 +125,15 @@ def build(spec):
             c.add(TWOQ[nm](g[1], g[2]))
         elif nm in ROT:
             c.add(ROT[nm](g[1], theta=g[2]))
+        elif nm == "CTRL":  # ["CTRL", base, targets, controls, theta-or-None]
+            base = g[1]
+            if base in ROT:
+                gg = ROT[base](g[2][0], theta=g[4])
+            elif base in TWOQ:
+                gg = TWOQ[base](g[2][0], g[2][1])
+            else:
+                gg = ONEQ[base](g[2][0])
+            c.add(gg.controlled_by(*g[3]))
         elif nm == "PN":
             c.add(gates.PauliNoiseChannel(g[1], [(g[2], g[3])]))
         elif nm == "MC":
@@ -750,6 +759,246 @@ for sid, ns, touch in runs:
     ctx.ob("C14_search_handles", bad == 0, "search", f"{bad} histories with a stale gate handle" if bad else "")
 
 
+ALIAS_BODY = '''
+nb = NumpyBackend()
+circuits = [build(sp) for sp in specs]
+n, dm = specs[0]["n"], specs[0]["dm"]
+shared = np.ascontiguousarray(input_state(n, shared_sid, dm), dtype=np.complex128)
+owned = [(shared, shared.copy(), "the caller's reused array")]
+results, snaps, why = [], [], None
+for step, (ci, src, ns) in enumerate(plan):
+    if src[0] == "result" and src[1] < len(results) and hasattr(results[src[1]], "state"):
+        arr = results[src[1]].state()          # the very array object the earlier result returns
+    elif src[0] == "fresh":
+        arr = np.ascontiguousarray(input_state(n, src[1], dm), dtype=np.complex128)
+        owned.append((arr, arr.copy(), "the caller's array of step %d" % step))
+    else:
+        arr = shared
+    before = np.array(arr, copy=True)
+    r = nb.execute_circuit(circuits[ci], initial_state=arr, nshots=ns)
+    want = nb.execute_circuit(build(specs[ci]), initial_state=before.copy(), nshots=ns)
+    if why is None and not np.allclose(np.asarray(r.state()), np.asarray(want.state()), atol=1e-12):
+        why = ("value", "step %d: executing circuit %d on this input gives another state than a fresh circuit on a copy of the input" % (step, ci))
+    for k, (rk, (sk, pk)) in enumerate(zip(results, snaps)):
+        if why is None and not (np.array_equal(np.asarray(rk.state()), sk) and np.allclose(np.asarray(rk.probabilities()), pk, atol=1e-12)):
+            why = ("earlier", "step %d (circuit %d, input %r): state()/probabilities() of the result of step %d changed" % (step, ci, src, k))
+    for a, orig, name in owned:
+        if why is None and not np.array_equal(a, orig):
+            why = ("input", "step %d (circuit %d, input %r): %s was overwritten" % (step, ci, src, name))
+    results.append(r)
+    snaps.append((np.array(r.state(), copy=True), np.array(r.probabilities(), copy=True)))
+ok = why is None
+'''
+
+
+def suite_aliasing(ctx):
+    """initial states that are the array returned by an earlier result's state(), or one
+    caller-owned array reused for several executions (same / different circuit objects):
+    no execution may change an earlier result or the caller's array."""
+    rng = ctx.rng
+    bad = 0
+
+    def ctrl_gate(n):
+        style = rng.choice(["leading", "single", "nonleading", "any"])
+        base = rng.choice(["RY", "RX", "H", "X", "SWAP"] if n >= 3 else ["RY", "RX", "H", "X"])
+        nt = 2 if base == "SWAP" else 1
+        maxc = n - nt
+        if style == "leading":
+            nc = rng.randint(1, maxc)
+            controls = list(range(nc))
+            targets = rng.sample(range(nc, n), nt)
+        elif style == "single":
+            qs = rng.sample(range(n), nt + 1)
+            controls, targets = [qs[0]], qs[1:]
+        elif style == "nonleading":
+            qs = rng.sample(range(n), nt + rng.randint(1, maxc))
+            targets, controls = qs[:nt], sorted(qs[nt:], reverse=True)
+        else:
+            qs = rng.sample(range(n), nt + rng.randint(1, maxc))
+            targets, controls = qs[:nt], qs[nt:]
+        return ["CTRL", base, targets, controls, round(rng.uniform(0.4, 2.6), 3) if base in ("RY", "RX") else None]
+
+    def mk_spec(n, dm, first_ctrl):
+        gs = []
+        if first_ctrl:
+            gs.append(ctrl_gate(n))
+        for _ in range(rng.randint(0, 3)):
+            t = rng.random()
+            if t < 0.4:
+                gs.append([rng.choice(["H", "X", "S", "T", "SX"]), rng.randrange(n)])
+            elif t < 0.6:
+                a, b = rng.sample(range(n), 2)
+                gs.append([rng.choice(["CNOT", "CZ", "SWAP"]), a, b])
+            elif t < 0.8:
+                gs.append([rng.choice(["RX", "RY"]), rng.randrange(n), round(rng.uniform(0.3, 2.8), 3)])
+            else:
+                gs.append(ctrl_gate(n))
+        if rng.random() < 0.7:
+            gs.append(["M", rng.sample(range(n), rng.randint(1, n)), None])
+        return {"n": n, "dm": dm, "gates": gs}
+
+    for i in range(150 if ctx.thorough else 40):
+        n = rng.choice([2, 3, 3, 4])
+        dm = i % 4 == 3
+        specs = [mk_spec(n, dm, rng.random() < 0.8) for _ in range(rng.randint(1, 3))]
+        # superposition inputs: every amplitude non-zero, so that an overwritten block shows
+        shared_sid = 2 ** n + rng.randrange(4)
+        plan = []
+        for t in range(rng.randint(2, 5)):
+            u = rng.random()
+            if t > 0 and u < 0.45:
+                src = ("result", rng.randrange(t))
+            elif u < 0.8:
+                src = ("shared",)
+            else:
+                src = ("fresh", 2 ** n + rng.randrange(4))
+            plan.append((rng.randrange(len(specs)), src, rng.randint(1, 5)))
+        body = f"specs = {specs!r}\nshared_sid = {shared_sid}\nplan = {plan!r}\n" + ALIAS_BODY
+        ns_ = _run_body(body)
+        ctx.case(("aliasing", json.dumps(specs), tuple(plan)))
+        ctx.stat("aliasing_dm" if dm else "aliasing_sv")
+        if not ns_["ok"]:
+            bad += 1
+            kind, msg = ns_["why"]
+            key = {"earlier": "aliasing:earlier-result-changed", "input": "aliasing:input-modified", "value": "aliasing:result-depends-on-reused-input"}[kind]
+            ctx.fail(key, f"{msg}; circuits {[sp['gates'] for sp in specs]} (density_matrix={dm}), plan (circuit, input source, nshots) {plan}",
+                     HARNESS_SRC + body + "print(why)\nraise SystemExit(0 if ok else 1)\n", observed=msg, broken=["C14_search_aliasing"])
+    ctx.ob("C14_search_aliasing", bad == 0, "search", f"{bad} histories where an execution changed an earlier result or the caller's array" if bad else "")
+
+
+ORDER_BODY = '''
+from qibo.parallel import parallel_circuits_execution, parallel_execution, parallel_parametrized_execution
+nb = NumpyBackend()
+def mk(i):
+    n, seedv = sizes[i], i + 1
+    c = Circuit(n)
+    for q in range(n):
+        c.add(gates.RY(q, theta=0.37 * seedv + 0.11 * q + salt))
+    for q in range(n - 1):
+        if (seedv + q) % 2:
+            c.add(gates.CNOT(q, q + 1))
+    c.add(gates.RX(n - 1, theta=0.2 * seedv))
+    if measured:
+        c.add(gates.M(*range(n)))
+    return c
+def st(i):
+    if states_mode == "none":
+        return None
+    j = 0 if states_mode == "single" else i
+    return input_state(sizes[i], 2 ** sizes[i] + (j % 4), False)
+circuits = [mk(i) for i in range(len(sizes))]
+if states_mode == "none":
+    states = None
+elif states_mode == "single":
+    states = st(0)
+else:
+    states = [st(i) for i in range(len(sizes))]
+    if states_mode == "tuple":
+        states = tuple(states)
+if via == "backend":
+    res = nb.execute_circuits(circuits, states, nshots=nshots, processes=k)
+else:
+    res = parallel_circuits_execution(circuits, states, nshots=nshots, processes=k, backend=nb)
+seq = [nb.execute_circuit(mk(i), initial_state=st(i), nshots=nshots) for i in range(len(sizes))]
+why = None
+if len(res) != len(seq):
+    why = "%d results for %d circuits" % (len(res), len(seq))
+for i, (a, b) in enumerate(zip(res, seq)):
+    sa, sb = np.asarray(a.state()), np.asarray(b.state())
+    if why is None and not (sa.shape == sb.shape and np.allclose(sa, sb, atol=1e-12)):
+        why = "result %d is not the execution of circuit %d (%d qubits): it has %d qubits" % (i, i, sizes[i], a.nqubits)
+    if why is None and measured:
+        f = a.frequencies()
+        if a.nshots != nshots or sum(f.values()) != nshots or any(len(key) != sizes[i] for key in f):
+            why = "result %d: frequencies %r do not fit circuit %d (%d qubits, %d shots)" % (i, dict(f), i, sizes[i], nshots)
+ok = why is None
+'''
+
+
+def suite_order(ctx):
+    """result i of the parallel helpers is the execution of circuit / state / parameter set i,
+    for every order pattern of circuit sizes and any number of workers."""
+    import itertools
+
+    from qibo import Circuit, gates
+    from qibo.backends import NumpyBackend
+    from qibo.parallel import parallel_execution, parallel_parametrized_execution
+
+    rng = ctx.rng
+    nb = NumpyBackend()
+    bad = 0
+    patterns = [[1, 2, 3], [3, 2, 1], [2, 3, 1], [3, 1, 2], [2, 1, 3], [1, 3, 2], [2, 4, 1, 3], [3, 1, 4, 2],
+                [2, 2, 2], [3, 3, 3, 3], [1, 2, 2, 1], [2, 3, 3, 1, 2]]
+    for _ in range(10 if ctx.thorough else 4):
+        m = rng.randint(4, 6)
+        patterns.append(rng.sample(range(1, 7), m))
+    if ctx.thorough:
+        patterns += [list(p) for p in itertools.permutations([1, 2, 3, 4])]
+    has_backend_api = hasattr(nb, "execute_circuits")
+    for pi, sizes in enumerate(patterns):
+        same = len(set(sizes)) == 1
+        modes = ["none", "list", "tuple"] + (["single"] if same else [])
+        ks = [1, 2, 3, 4] if (ctx.thorough or pi < 8) else [rng.randint(1, 4)]
+        for k in ks:
+            mode = modes[(pi + k) % len(modes)]
+            via = "backend" if (has_backend_api and (pi + k) % 3 == 0) else "helper"
+            measured = (pi + k) % 2 == 0
+            head = f"sizes = {sizes!r}\nk = {k}\nstates_mode = {mode!r}\nvia = {via!r}\nmeasured = {measured}\nnshots = {rng.randint(1, 30)}\nsalt = {round(rng.uniform(0, 1), 3)}\n"
+            ns_ = _run_body(head + ORDER_BODY)
+            ctx.case(("order", tuple(sizes), k, mode, via, measured))
+            ctx.stat("order_%s_k%d" % (via, k))
+            if not ns_["ok"]:
+                bad += 1
+                ctx.fail("parallel:result-order", f"parallel_circuits_execution ({via}, processes={k}, states={mode}) over circuits with qubit counts {sizes}: {ns_['why']}",
+                         HARNESS_SRC + head + ORDER_BODY + "print(why)\nraise SystemExit(0 if ok else 1)\n", observed=ns_["why"], broken=["C14_search_order"])
+    # parallel_execution: one circuit, states in non-monotone order; parallel_parametrized_execution:
+    # parameter sets in non-monotone order
+    for i in range(12 if ctx.thorough else 4):
+        n = rng.randint(1, 4)
+        m = rng.randint(3, 7)
+        sids = [rng.randrange(2 ** n + 4) for _ in range(m)]
+        thetas = [round(rng.uniform(-3, 3), 3) for _ in range(m)]
+        k = rng.randint(1, 4)
+        head = f"n = {n}\nsids = {sids!r}\nthetas = {thetas!r}\nk = {k}\n"
+        body = head + '''
+from qibo.parallel import parallel_execution, parallel_parametrized_execution
+nb = NumpyBackend()
+def mk(theta=0.0):
+    c = Circuit(n)
+    for q in range(n):
+        c.add(gates.RY(q, theta=theta + 0.1 * q))
+    for q in range(n - 1):
+        c.add(gates.CZ(q, q + 1))
+    c.add(gates.M(*range(n)))
+    return c
+res = parallel_execution(mk(0.7), [input_state(n, s, False) for s in sids], processes=k, backend=nb)
+seq = [nb.execute_circuit(mk(0.7), initial_state=input_state(n, s, False)) for s in sids]
+why = None
+for i, (a, b) in enumerate(zip(res, seq)):
+    if why is None and not np.allclose(a.state(), b.state(), atol=1e-12):
+        why = "parallel_execution: result %d is not the execution on state %d" % (i, i)
+if len(res) != len(seq):
+    why = "parallel_execution: %d results" % len(res)
+params = [[t + 0.1 * q for q in range(n)] for t in thetas]
+res = parallel_parametrized_execution(mk(), [np.array(p) for p in params], initial_state=input_state(n, sids[0], False), processes=k, backend=nb)
+seq = [nb.execute_circuit(mk(t), initial_state=input_state(n, sids[0], False)) for t in thetas]
+for i, (a, b) in enumerate(zip(res, seq)):
+    if why is None and not np.allclose(a.state(), b.state(), atol=1e-12):
+        why = "parallel_parametrized_execution: result %d is not the execution with parameter set %d" % (i, i)
+if why is None and len(res) != len(seq):
+    why = "parallel_parametrized_execution: %d results" % len(res)
+ok = why is None
+'''
+        ns_ = _run_body(body)
+        ctx.case(("order-states-params", n, tuple(sids), tuple(thetas), k))
+        ctx.stat("order_states_params")
+        if not ns_["ok"]:
+            bad += 1
+            ctx.fail("parallel:result-order", f"{ns_['why']} (n={n}, states {sids}, angles {thetas}, processes={k})",
+                     HARNESS_SRC + body + "print(why)\nraise SystemExit(0 if ok else 1)\n", observed=ns_["why"], broken=["C14_search_order"])
+    ctx.ob("C14_search_order", bad == 0, "search", f"{bad} parallel runs return results in the wrong order" if bad else "")
+
+
 def suite_parallel(ctx, legacy):
     from qibo import Circuit, gates
     from qibo.backends import NumpyBackend
@@ -1007,5 +1256,7 @@ def run(ctx):
     suite_histories(ctx, legacy)
     suite_seed(ctx, legacy)
     suite_handles(ctx, legacy)
+    suite_aliasing(ctx)
+    suite_order(ctx)
     suite_parallel(ctx, legacy)
     suite_writes(ctx)
